@@ -479,6 +479,84 @@ func hash64s(b []byte) uint64 {
 	return h
 }
 
+// c11GenSmall: a message from the full option space whose values and texts are small (the boundary family adds the bulk).
+func c11GenSmall(rt *rapid.T) *c11Gen {
+	g := &c11Gen{v: protogen.Version(rt)}
+	cl := protogen.Consistency(rt, "cl")
+	id := func() []byte {
+		return protogen.Bytes(rt, "id", rapid.SampledFrom([]int{1, 16, 16, 32}).Draw(rt, "idlen"))
+	}
+	switch rapid.IntRange(0, 3).Draw(rt, "op") {
+	case 0:
+		g.msg = protogen.Query(rt, g.v, c11Texts[rapid.IntRange(0, len(c11Texts)-1).Draw(rt, "text")], cl, 0)
+	case 1:
+		g.msg = protogen.Execute(rt, g.v, id(), cl, 0)
+	default:
+		n := rapid.IntRange(1, 12).Draw(rt, "nchildren")
+		var ch []protogen.BatchChildSpec
+		for i := 0; i < n; i++ {
+			if rapid.Bool().Draw(rt, "childprepared") {
+				ch = append(ch, protogen.BatchChildSpec{Id: id()})
+			} else {
+				ch = append(ch, protogen.BatchChildSpec{Query: "DELETE FROM t WHERE k = ?"})
+			}
+		}
+		g.msg = protogen.Batch(rt, g.v, ch, cl, 0)
+	}
+	if g.v >= primitive.ProtocolVersion4 && rapid.IntRange(0, 3).Draw(rt, "payload") == 0 {
+		g.payload = protogen.CustomPayload(rt, 1)
+	}
+	g.tracing = rapid.IntRange(0, 3).Draw(rt, "tracing") == 0
+	return g
+}
+
+// c11PadTo adds one value (to the query options, or to a drawn batch child) sized so that the encoded body has exactly
+// target bytes; reports whether that worked out (it does unless the message is already longer).
+func c11PadTo(rt *rapid.T, g *c11Gen, target int) bool {
+	pad := &primitive.Value{Type: primitive.ValueTypeRegular, Contents: []byte{}}
+	addTo := func(o *message.QueryOptions) {
+		if len(o.NamedValues) > 0 {
+			o.NamedValues["zzpad"] = pad
+		} else {
+			o.PositionalValues = append(o.PositionalValues, pad)
+		}
+	}
+	switch m := g.msg.(type) {
+	case *message.Query:
+		addTo(m.Options)
+	case *message.Execute:
+		addTo(m.Options)
+	case *message.Batch:
+		ch := m.Children[rapid.IntRange(0, len(m.Children)-1).Draw(rt, "padchild")]
+		ch.Values = append(ch.Values, pad)
+	}
+	enc := func() int {
+		var err error
+		g.body, g.flags, err = protogen.EncodeBody(g.v, g.msg, g.payload, g.tracing)
+		if err != nil {
+			rt.Fatalf("generator: reference encoder failed: %v", err)
+		}
+		return len(g.body)
+	}
+	n := enc()
+	if n > target {
+		return false
+	}
+	fill := make([]byte, target-n)
+	for i := range fill {
+		fill[i] = byte(i*7 + i>>8)
+	}
+	pad.Contents = fill
+	ok := enc() == target
+	switch m := g.msg.(type) {
+	case *message.Query:
+		g.nopt = c11CountOpts(m.Options)
+	case *message.Execute:
+		g.nopt = c11CountOpts(m.Options)
+	}
+	return ok
+}
+
 func TestC11(t *testing.T) {
 	rec := evid.New("C11", "exploration",
 		"QUERY/EXECUTE/BATCH messages over the reference library's full option space for v3,v4,v5,DSEv1,DSEv2 (flags custom-payload/tracing), encoded by the reference codec, decoded with codecs.CustomRawCodec the way the proxy does; "+
@@ -592,6 +670,30 @@ func TestC11(t *testing.T) {
 		c.Body = hex.EncodeToString(b)
 		c.Expect = nil
 		rec.Case("m"+c.Body[:min(len(c.Body), 64)]+fmt.Sprint(len(b)), append(g.labels(), "mutant")...)
+		return c
+	}, c11Check)
+
+	// boundary sizes: valid messages padded (one extra value) so that the body length lands within a few dozen bytes of 2^15
+	// or of a multiple of 2^16 up to 1 MiB - lengths at which 16-bit arithmetic on lengths or counts goes wrong
+	runProp(t, rec, "boundary", perShard(evid.Pick(3200, 80000)), func(rt *rapid.T) c11Case {
+		g := c11GenSmall(rt)
+		target := 32768
+		if m := rapid.IntRange(0, 16).Draw(rt, "m"); m > 0 {
+			target = m * 65536
+		}
+		nch := 0
+		if b, ok := g.msg.(*message.Batch); ok {
+			nch = len(b.Children)
+		}
+		target += rapid.IntRange(-40, 5*nch+40).Draw(rt, "delta")
+		hit := c11PadTo(rt, g, target)
+		c := mk(g, "valid")
+		c.Note = fmt.Sprintf("boundary target %d", target)
+		key := ""
+		if hit {
+			key = g.nontrivialKey()
+		}
+		rec.Case(key, append(g.labels(), map[bool]string{true: "boundary:hit", false: "boundary:missed"}[hit], fmt.Sprintf("boundary:%dKiB", (target+512)/1024))...)
 		return c
 	}, c11Check)
 
